@@ -46,6 +46,14 @@ func c02(c *Ctx) {
 	r.Rule("C02.buffer-exclusive", "the buffer a frame is built in is not shared with another connection while the frame is being built or written (same rules as C20.owners, C20.put-once, C20.no-use-after)")
 	c.borrow(c20, map[string]string{"C20.owners": "C02.buffer-exclusive", "C20.put-once": "C02.buffer-exclusive", "C20.no-use-after": "C02.buffer-exclusive", "C20.implicit-close": "C02.one-message-at-a-time"})
 	r.Rule("C02.one-message-at-a-time", "every way of starting a message (NextWriter, both WriteMessage paths) first ends a writer the application left open, so frames of two messages never interleave and no message is lost (same rule as C20.implicit-close)")
+	r.Rule("C02.torn-frame-is-last", "a transport write that failed (possibly after part of the frame) is always recorded as the sticky write error, so no frame follows a torn one (same rule as C10.err-to-fatal)")
+	c.borrow(c10, map[string]string{"C10.err-to-fatal": "C02.torn-frame-is-last"})
+	r.Rule("C02.rsv1-negotiated", "a server connection compresses only if its 101 response announced permessage-deflate: the extension line is appended on exactly the paths that install the compression functions (same rule as C12.compress-announce)")
+	{
+		u := newUpgA(c)
+		u.compressAnnounce("C02.rsv1-negotiated")
+		u.runFull("C02.rsv1-negotiated")
+	}
 	r.Rule("C02.prepared-bytes-copied", "the bytes of a prepared frame are copied out of the rendering connection's reused write buffer (same rule as C19.payload-copy)")
 	c.borrow(c19, map[string]string{"C19.payload-copy": "C02.prepared-bytes-copied"})
 	w.deflateTail("C02.rsv1")
